@@ -281,17 +281,22 @@ TypePara ==
            hard == two /\ Level = 2 /\ v % 4 = 3
            (* the indentation of the first line spelled as a tab: it reaches the next tab stop, counted from the beginning of the
               line - fewer than four columns (so no indented code) exactly when the container prefix does not end on a tab stop *)
-           tab == Level = 2 /\ v % 7 = 3 /\ AllStarted /\ last.kind # "list" /\ Len(LineNow("x")) % 4 # 1 IN
+           tab == Level = 2 /\ v % 7 = 3 /\ AllStarted /\ last.kind # "list" /\ Len(LineNow("x")) % 4 # 1
+           (* GFM: "The header row must match the delimiter row in the number of cells. If not, a table will not be recognized" *)
+           (* (a header row whose delimiter row has fewer cells: GFM says no table; mistletoe recognises one on purpose -
+              test_block_token.TestTable.test_match_1 pins it - so the spelling is not typed) *)
+           notable == FALSE IN
        /\ IndOk(ind)
        /\ (keep < Depth => v % 2 = 0)                            \* one lazy spelling per variant pair is enough
-       /\ LET l2 == <<W(WordAt(nblocks + 7)), W("cont")>>
-              tx == IF two THEN <<[atoms |-> l1, hard |-> hard], [atoms |-> l2, hard |-> FALSE]>> ELSE <<[atoms |-> l1, hard |-> FALSE]>>
+       /\ LET l2 == IF notable THEN <<W("|---|")>> ELSE <<W(WordAt(nblocks + 7)), W("cont")>>
+              tx == IF notable THEN <<[atoms |-> <<W("| h1 | h2 |")>>, hard |-> FALSE], [atoms |-> l2, hard |-> FALSE]>> ELSE IF two THEN <<[atoms |-> l1, hard |-> hard], [atoms |-> l2, hard |-> FALSE]>> ELSE <<[atoms |-> l1, hard |-> FALSE]>>
               lead == IF tab THEN "{TAB}" ELSE Spaces(ind)
-              lines == IF two THEN <<lead \o LineSrc(l1) \o (IF hard THEN "\\" ELSE ""), LineSrc(l2)>> ELSE <<lead \o LineSrc(l1)>> IN
+              lines == IF notable THEN <<"| h1 | h2 |", "|---|">>
+                       ELSE IF two THEN <<lead \o LineSrc(l1) \o (IF hard THEN "\\" ELSE ""), LineSrc(l2)>> ELSE <<lead \o LineSrc(l1)>> IN
           /\ Leaf("para", "para", sep, Node("Paragraph", Parent, 0, 0, tx, ""), lines, keep)
           /\ tags' = tags \cup (IF keep < Depth THEN {"lazy-continuation"} ELSE {}) \cup LazyTag(sep)
                           \cup (IF keep < Depth /\ KF_LazyIndented(keep, ind) THEN {"lazy-after-indented-quote-content"} ELSE {})
-                          \cup NcIf(ind > 0 \/ keep < Depth \/ tab) \cup NcSep(sep) \cup TitleLike(sep, l1)
+                          \cup NcIf(ind > 0 \/ keep < Depth \/ (tab /\ ~notable)) \cup NcSep(sep) \cup TitleLike(sep, l1)
 
 TypeAtx ==
     \E sep \in Seps, v \in Variants :
@@ -381,15 +386,20 @@ TypeTable ==
            w == WordAt(nblocks + 1)
            hdr == <<"h" \o w, "*em*">>
            dup == v % 7 = 5                                          \* the same row twice (and the same text in several cells)
-           rows == IF dup THEN << <<"same", "same">>, <<"same", "same">> >> ELSE IF esc THEN << <<"x \\| y", "`p \\| q`">> >> ELSE IF v % 3 = 0 THEN << <<w, "two">> >>
+           emptyfirst == v % 11 = 9                                  \* a row whose first cell is empty, spelled "|| b |"
+           excess == FALSE     \* (GFM ignores cells beyond the number of columns; mistletoe keeps them and its own tests pin that
+                               \*  behaviour - test_table_with_varying_column_counts - so the spelling is not typed)
+           rows == IF emptyfirst THEN << <<"", "b">> >> ELSE IF dup THEN << <<"same", "same">>, <<"same", "same">> >> ELSE IF esc THEN << <<"x \\| y", "`p \\| q`">> >> ELSE IF v % 3 = 0 THEN << <<w, "two">> >>
                    ELSE IF v % 3 = 1 /\ ~canon THEN << <<w, "`co`">>, <<"short">> >> ELSE << <<"a " \o w, "b">>, <<"c", "d">> >>
            width(c) == Max2(3, MaxLen(<<hdr>> \o rows, c))
            kind(c) == AlignKind(aligns0[c])
            aligns == IF canon THEN [c \in 1..2 |-> DelimCell(width(c), kind(c))] ELSE aligns0
            Cells(cells) == IF canon THEN [c \in 1..2 |-> PadCell(cells[c], width(c), kind(c))] ELSE cells
-           Line(cells) == IF outer THEN "| " \o Join(Cells(cells), " | ") \o " |" ELSE Join(cells, " | ")
+           Line(cells) == IF emptyfirst /\ cells[1] = "" /\ ~canon THEN "|| " \o cells[2] \o " |"
+                          ELSE IF outer THEN "| " \o Join(Cells(cells), " | ") \o " |" ELSE Join(cells, " | ")
            DLine == IF canon THEN "| " \o Join(aligns, " | ") \o " |" ELSE IF outer THEN "|" \o Join(aligns, "|") \o "|" ELSE Join(aligns, " | ")
-           lines == <<Line(hdr), DLine>> \o [i \in DOMAIN rows |-> IF Len(rows[i]) = 1 /\ ~outer THEN rows[i][1] \o " |" ELSE Line(rows[i])]
+           lines == <<Line(hdr), DLine>> \o [i \in DOMAIN rows |-> IF Len(rows[i]) = 1 /\ ~outer THEN rows[i][1] \o " |"
+                                                               ELSE IF excess /\ i = Len(rows) /\ Len(rows[i]) = 2 THEN Line(rows[i]) \o (IF outer THEN " extra |" ELSE " | extra") ELSE Line(rows[i])]
            base == Len(src) + Len(SepLines(sep))
            tid == Len(nodes) + 1
            rowNodes(i) == <<Node("TableRow", tid, base + 2 + i, 0, NoText, "")>>
